@@ -466,6 +466,9 @@ func (s *Sim) CheckArith() {
 	for i := 0; i < 6; i++ {
 		c := r.C
 		exp := uint32(c.Intn(0x23, "ar-exp"))
+		if c.Bool(150, "ar-exp-huge") {
+			exp = uint32(0x23 + c.Intn(0xdd, "ar-exp-hi")) // beyond 256 bits: overflowing targets
+		}
 		var mant uint32
 		switch simkit.Pick(c, "ar-mant", 3, 3, 2, 1, 1) {
 		case 0:
@@ -487,7 +490,7 @@ func (s *Sim) CheckArith() {
 		if gotT := blockchain.CompactToBig(bits); gotT.Cmp(wantT) != 0 {
 			r.Violate("C09", "compact-to-big", "", "CompactToBig(%08x)=%x want %x", bits, gotT, wantT)
 		}
-		if !neg && wantT.Sign() > 0 {
+		if !neg && wantT.Sign() > 0 && exp < 0x23 {
 			if back := blockchain.BigToCompact(wantT); back != bigToCompact(wantT) {
 				r.Violate("C09", "big-to-compact", "", "BigToCompact(%x)=%08x want %08x", wantT, back, bigToCompact(wantT))
 			}
